@@ -54,6 +54,8 @@ def build_harness(mode="hooks"):
     or None (build failure => the run is inconclusive, not a violation)."""
     if mode == "hooks" and os.environ.get("VERIF_SANITIZER") == "asan":
         mode = "asan"
+    if mode == "hooks" and os.environ.get("VERIF_SANITIZER") == "cov":
+        mode = "cov"
     env = base_env()
     tdir = target_dir(mode)
     env["CARGO_TARGET_DIR"] = tdir
@@ -72,6 +74,10 @@ def build_harness(mode="hooks"):
         env["RUSTFLAGS"] = GUARD + " -Zsanitizer=address -Cforce-frame-pointers=yes"
         extra = ["--target", "x86_64-unknown-linux-gnu"]
         sub = "x86_64-unknown-linux-gnu/debug"
+    elif mode == "cov":
+        # source-based coverage of the workloads (bin/coverage): not a check, a map of what the monitors reached
+        cmd = ["cargo", "+nightly"]
+        env["RUSTFLAGS"] = GUARD + " -Cinstrument-coverage"
     cmd += ["build", "--offline", "--manifest-path", os.path.join(VERIF, "harness", "Cargo.toml")] + extra + paths_override()
     t0 = time.time()
     rc, out = run(cmd, env=env, quiet=True)
@@ -93,6 +99,11 @@ def build_repo_bins(profile="debug", bins=None):
     env["CARGO_TARGET_DIR"] = tdir
     env["RUSTFLAGS"] = GUARD
     cmd = ["cargo", "build", "--offline", "--manifest-path", os.path.join(REPO, "Cargo.toml")]
+    if os.environ.get("VERIF_SANITIZER") == "cov":
+        tdir = target_dir("repo-cov")
+        env["CARGO_TARGET_DIR"] = tdir
+        env["RUSTFLAGS"] = GUARD + " -Cinstrument-coverage"
+        cmd = ["cargo", "+nightly", "build", "--offline", "--manifest-path", os.path.join(REPO, "Cargo.toml")]
     if profile == "release":
         cmd.append("--release")
     for b in bins or []:
